@@ -9,7 +9,7 @@ HARNESS_FILES = ['pkg/frame/zz_verif_common.go', 'pkg/frame/zz_verif_dialect.go'
 KERNEL_PKGS = ['.']
 NATIVE_ROOT_PREFIXES = ('verifHarness_C09_', 'verifHarness_C07_')
 CLOCK_PKGS = ['pkg/streamwriter']
-ROOTS = ['streamwriter.verifHarness_', r'v3\.verifHarness_C11_drain', r'v3\.verifHarness_C09_node_init', r'frame\.verifHarness_C09_frame_conf']
+ROOTS = ['streamwriter.verifHarness_', r'v3\.verifHarness_C11_drain', r'v3\.verifHarness_C09_node_init', r'frame\.verifHarness_C09_frame']
 TAG_FILTER = ('C09/', 'C07/', 'C11/K3/')
 ALLOW = 'bufio,io,encoding/binary,errors,bytes'
 INITS = 'io,bufio,errors,github.com/bluenviron/gomavlib/v3/pkg/message,github.com/bluenviron/gomavlib/v3/pkg/frame'
@@ -38,6 +38,9 @@ def tasks(tier):
             ts.append(Task('verifHarness_C09_node_init', [kind, via], pkg='.'))
     for via in (0, 1, 2):
         ts.append(Task('verifHarness_C09_frame_conf', [via], pkg='pkg/frame'))
+    for version in (0, 1, 2):
+        for shape in range(4):
+            ts.append(Task('verifHarness_C09_framewriter_message', [version, shape], pkg='pkg/frame'))
     for raw in (0, 1, 2):
         ts.append(Task('verifHarness_C09_v1_big_id', [raw]))
     for version in (1, 2):
@@ -47,7 +50,7 @@ def tasks(tier):
 
 
 def required_reach(tier):
-    return ['C09/S', 'C09/M', 'C09/I', 'C09/V', 'C09/W', 'C11/K3', 'C09/N', 'C09/P', 'C09/G']
+    return ['C09/S', 'C09/M', 'C09/I', 'C09/V', 'C09/W', 'C11/K3', 'C09/N', 'C09/P', 'C09/G', 'C09/FW']
 
 
 def bounds(tier):
@@ -59,6 +62,7 @@ def bounds(tier):
             'node_init': 'Node.Initialize and the deprecated NewNode(NodeConf): every valid configuration (version, system id, component id, keys, heartbeat / stream-request / timeout settings symbolic) is accepted and reaches the node and a new channel\'s stream writer unchanged (component id 1 when unset); a missing version, a zero system id and a key with version 1 are refused',
             'frame_constructors': 'frame.NewReadWriter / ReadWriter.Initialize / NewReader + NewWriter: dialect, keys, version, system id, component id (1 when unset), link id symbolic: the reader and writer hold exactly what was configured',
             'gapless_over_refusals': 'from an arbitrary counter state: a refused write (nil message, message outside the dialect, v1 id > 255) consumes no sequence number and emits nothing; the next accepted frame carries the next number; also after a transport failure the next frame carries the counter\'s number (both versions)',
+            'frame_writer_message_path': 'frame.Writer.WriteMessage without a key, version unset / 1 / 2, 4 shapes, arbitrary ids and counter state: the spec frame, counter + 1',
             'init': 'every (version int, system id, component id, key present/absent)',
             'string_lengths': 'shape 1 string lengths 0,2,4,5 (quick) / 0..6 (thorough), bytes symbolic'}
 
